@@ -749,7 +749,7 @@ pub fn strategy_fifo(g: &GenCfg) -> BoxedStrategy<Case> {
         .prop_map(|(kind, prods, cons, offset, left, sched)| {
             let mut actors: Vec<Actor> = prods.into_iter().map(|ops| Actor { ctx: TH, role: 0, ops }).collect();
             actors.push(Actor { ctx: TH, role: 1, ops: cons });
-            Case { fam: "q_mpsc".into(), workers: 1, pool: 1, feat: 0, cfg: vec![kind, offset, left], actors, sched }
+            Case { fam: "q_mpsc".into(), workers: 1, pool: 1, feat: 0, cfg: vec![kind, offset, left], actors, sched, weak: 0 }
         })
         .boxed()
 }
@@ -784,7 +784,7 @@ fn strategy_spmc_aba() -> BoxedStrategy<Case> {
                 Seg { run: r1, pick: 128, stall_ms: 0 },
                 Seg { run: r2, pick: 0, stall_ms: 0 },
             ];
-            Case { fam: "q_spmc".into(), workers: 1, pool: 1, feat: 0, cfg: vec![api, offset], actors, sched }
+            Case { fam: "q_spmc".into(), workers: 1, pool: 1, feat: 0, cfg: vec![api, offset], actors, sched, weak: 0 }
         })
         .boxed()
 }
@@ -808,7 +808,7 @@ fn strategy_spmc_plain(g: &GenCfg) -> BoxedStrategy<Case> {
             for ops in stealers {
                 actors.push(Actor { ctx: TH, role: 1, ops });
             }
-            Case { fam: "q_spmc".into(), workers: 1, pool: 1, feat: 0, cfg: vec![api, offset], actors, sched }
+            Case { fam: "q_spmc".into(), workers: 1, pool: 1, feat: 0, cfg: vec![api, offset], actors, sched, weak: 0 }
         })
         .boxed()
 }
@@ -828,7 +828,7 @@ pub fn strategy_list(g: &GenCfg) -> BoxedStrategy<Case> {
         .prop_map(|(prods, cons, sched)| {
             let mut actors: Vec<Actor> = prods.into_iter().map(|ops| Actor { ctx: TH, role: 0, ops }).collect();
             actors.push(Actor { ctx: TH, role: 1, ops: cons });
-            Case { fam: "q_list".into(), workers: 1, pool: 1, feat: 0, cfg: vec![0], actors, sched }
+            Case { fam: "q_list".into(), workers: 1, pool: 1, feat: 0, cfg: vec![0], actors, sched, weak: 0 }
         })
         .boxed()
 }
